@@ -4,6 +4,7 @@ import (
 	"crypto/sha256"
 	"encoding/hex"
 	"fmt"
+	"regexp"
 	"strings"
 
 	"github.com/onflow/cadence/common"
@@ -145,6 +146,11 @@ func newScenario(r *gen.R, nscripts int) *Scenario {
 		}
 	}
 	if r.IntN(2) == 0 {
+		// one commit that touches several (partly fresh) accounts
+		at := r.IntN(len(s.Txs) + 1)
+		s.Txs = append(s.Txs[:at], append([]*gen.Program{gen.MultiAccountTx(r)}, s.Txs[at:]...)...)
+	}
+	if r.IntN(2) == 0 {
 		// destroys stored resources without importing the declaring contract
 		s.Txs = append(s.Txs, gen.SweeperTx(r))
 	}
@@ -175,7 +181,7 @@ func (s *Scenario) runHistory(eng host.Engine, opts func(step int) *host.Options
 			opt = opts(i + 1)
 		}
 		h.ResetTrace()
-		o := h.RunTx(eng, t.Source, nil, []common.Address{host.Addr(1)}, opt)
+		o := h.RunTx(eng, t.Source, nil, signersFor(t.Source), opt)
 		if visit != nil {
 			visit(i+1, h, o)
 		}
@@ -188,4 +194,23 @@ func (s *Scenario) runScript(eng host.Engine, i int, opt *host.Options) (Obs, *h
 	h := host.New()
 	o := h.RunScript(eng, s.Scripts[i].Source, nil, opt)
 	return observe(h, o), h, o
+}
+
+var prepareRe = regexp.MustCompile(`prepare\(([^)]*)\)`)
+
+// signersFor derives the signer accounts of a transaction from the number of parameters of its
+// prepare block: account 0x1 first (it holds the deployed contract), then 0x2, 0x3, …
+func signersFor(src string) []common.Address {
+	n := 1
+	if m := prepareRe.FindStringSubmatch(src); m != nil {
+		n = strings.Count(m[1], "&Account")
+		if n < 1 {
+			n = 1
+		}
+	}
+	out := make([]common.Address, n)
+	for i := range out {
+		out[i] = host.Addr(uint64(i + 1))
+	}
+	return out
 }
